@@ -1,6 +1,6 @@
 (* C37: the hypotheses of the theorems are satisfiable on non-trivial inputs.
    es = [z*(x + y); sin(x + y)]  (the trees exactly as the library dumps them). *)
-From SE Require Import C37.CseLibProofs C37.CseRefuted.
+From SE Require Import C37.CseLibProofs C37.CseRefuted C37.CseOptLib C37.CseExcl.
 Local Open Scope N_scope.
 
 Definition vx : expr := ESym [120].
@@ -46,3 +46,21 @@ Proof. exact (unit_sem_laws free_ctors). Qed.
 Example free_model_runs :
   exists reps red, tree_cse free_ctors [] es0 = Ok (reps, red) /\ length reps = 1%nat.
 Proof. eexists. eexists. split; [vm_compute; reflexivity|reflexivity]. Qed.
+
+(* the inputs of the examples are in the class of the excluded-symbols theorem *)
+Example inputs_ok : forallb input_ok es0 = true.
+Proof. vm_compute. reflexivity. Qed.
+
+(* opt_cse / match_common_args: es = [z + y + x; w + y + x] share the sub-sum y + x; the model of
+   the whole cse() finds it (one replacement), as the library does *)
+Definition vw : expr := ESym [119].
+Definition es1 : list expr :=
+  [EAdd (NInt 0) [(vz, NInt 1); (vy, NInt 1); (vx, NInt 1)]; EAdd (NInt 0) [(vw, NInt 1); (vy, NInt 1); (vx, NInt 1)]].
+Example opt_model_runs :
+  exists opt reps red, opt_cse_lib es1 = Ok opt /\ length opt = 2%nat /\
+                       cse_lib es1 = Ok (reps, red) /\ length reps = 1%nat /\ length red = 2%nat.
+Proof.
+  eexists. eexists. eexists.
+  split; [vm_compute; reflexivity|]. split; [reflexivity|].
+  split; [vm_compute; reflexivity|]. split; reflexivity.
+Qed.
